@@ -37,7 +37,7 @@ def main():
     jobs.append(("GramPackrat", c17.PACKRAT_CFG, "packrat"))
     jobs.append(("MC_Trees", c07.trees_cfg(7, 0, {"var", "type", "pi", "let"}, {"sum"}), "trees-7-pilet"))
     jobs.append(("MC_Trees", c07.trees_cfg(7, 1, {"lit", "bin"}, {"prod", "quot", "sum", "diff"}), "trees-7-arith"))
-    jobs.append(("MC_Punch", vf.cfg_consts(MaxSize=7, Skel=1, FreeVars=0, MaxIdx=3, TyFuel=400, Formers={"type", "int", "var", "lam", "let1"}, Ops={"sum"}, Lits={1}) +
+    jobs.append(("MC_Punch", vf.cfg_consts(MaxSize=7, Skel=1, FreeVars=0, MaxIdx=3, TyFuel=400, Formers={"type", "int", "var", "lam", "let1", "app"}, Ops={"sum"}, Lits={1}) +
                  "INIT SInit\nNEXT BNext\nINVARIANTS Emit3\nCHECK_DEADLOCK FALSE\n", "punch-again-7"))
     jobs.append(("MC_ConvOps", "INIT Init\nNEXT Next\nINVARIANT Emit\nCHECK_DEADLOCK FALSE\n", "convops"))
     from checks import pegcommon
